@@ -285,6 +285,8 @@ func runRows(e *core.Env, prop string) error {
 	if err != nil {
 		return err
 	}
+	var prevRerun func() string
+	var prevImpl, prevKey string
 	for ei, ec := range evs {
 		ev := eventOf(ec.name, ec.inputs)
 		// ---- C13: signature
@@ -424,6 +426,41 @@ func runRows(e *core.Env, prop string) error {
 				bfl[f] = genFilter(r, k, c.val(), f != "src_name")
 			}
 		}
+		hasLogAddr := false
+		for _, f := range fields {
+			hasLogAddr = hasLogAddr || f == "log_addr"
+		}
+		if withFilters && hasLogAddr && r.Chance(1, 2) {
+			// the address filter that may be pushed down to eth_getLogs: lists mixing complete 20-byte
+			// addresses with shorter fragments, over-long and empty arguments; often the only active filter
+			g := gfilter{active: true, op: core.Pick(r, bytesOps)}
+			if r.Chance(2, 3) {
+				g.op = "contains"
+			}
+			for i, n := 0, 1+r.Intn(3); i < n; i++ {
+				switch r.Intn(6) {
+				case 0, 1:
+					g.args = append(g.args, "0x"+hex.EncodeToString(laddr))
+				case 2:
+					g.args = append(g.args, "0x"+hex.EncodeToString(r.Bytes(20)))
+				case 3:
+					a := r.Intn(19)
+					g.args = append(g.args, "0x"+hex.EncodeToString(laddr[a:a+1+r.Intn(19-a)]))
+				case 4:
+					g.args = append(g.args, "0x"+hex.EncodeToString(r.Bytes(1+r.Intn(4))))
+				default:
+					g.args = append(g.args, core.Pick(r, []string{"0x", "0x" + hex.EncodeToString(r.Bytes(21)), hex.EncodeToString(laddr)}))
+				}
+			}
+			bfl["log_addr"] = g
+			if r.Bool() {
+				for f := range bfl {
+					if f != "log_addr" {
+						bfl[f] = gfilter{}
+					}
+				}
+			}
+		}
 		var cols []wpg.Column
 		for _, lf := range ec.selLeaf {
 			cols = append(cols, wpg.Column{Name: lf.col, Type: "bytea"})
@@ -448,6 +485,14 @@ func runRows(e *core.Env, prop string) error {
 		if err != nil {
 			e.Add(core.Case{Impl: "config-rejected: " + err.Error(), Spec: "accepted", Key: "cfg " + ec.desc, Tags: []string{"config-rejected"}, Detail: map[string]any{"event": ev}})
 			continue
+		}
+		if prevRerun != nil {
+			// several integrations live in one process: building THIS one (its signature hash, its type tree)
+			// must leave the previously built one exactly as it was - its matching log still yields the same rows
+			again := prevRerun()
+			e.Add(core.Case{Impl: again, Spec: prevImpl, Key: "still-intact " + prevKey, Nontrivial: strings.HasPrefix(prevImpl, "ok "),
+				Tags: []string{"earlier-integration-intact-after-building-another"}, Detail: map[string]any{"earlier": prevKey, "built_after": ec.desc}})
+			prevRerun = nil
 		}
 		// reference table contents: sometimes contain the looked-up values
 		for _, c := range []string{"log_addr", "tx_hash", "block_hash", "tx_to", "tx_signer"} {
@@ -508,9 +553,11 @@ func runRows(e *core.Env, prop string) error {
 			}
 		}
 		// ---- C12: pushdown
+		var pushed []string
 		if prop == "C12" {
 			flt := ig.Filter()
 			addrs := flt.Addresses()
+			pushed = addrs
 			impl := "-"
 			if len(addrs) > 0 {
 				var xs []string
@@ -559,26 +606,34 @@ func runRows(e *core.Env, prop string) error {
 			b2.Txs = eth.Txs{tx}
 			fc := &fakeConn{refs: map[string]map[string]bool{"reft.refc": refSet}}
 			var mu sync.Mutex
-			impl := core.Protect(func() string {
-				if _, err := ig.Insert(e2eCtx("src1", 7), &mu, fc, []eth.Block{b2}); err != nil {
-					return "err"
-				}
-				if len(fc.copies) != 1 {
-					return fmt.Sprintf("copies=%d", len(fc.copies))
-				}
-				var rows []string
-				for _, row := range fc.copies[0].Rows {
-					var cs []string
-					for _, c := range row {
-						cs = append(cs, renderVal(c))
+			runIt := func() string {
+				fc := &fakeConn{refs: map[string]map[string]bool{"reft.refc": refSet}}
+				return core.Protect(func() string {
+					if _, err := ig.Insert(e2eCtx("src1", 7), &mu, fc, []eth.Block{b2}); err != nil {
+						return "err"
 					}
-					rows = append(rows, strings.Join(cs, ","))
-				}
-				if len(rows) == 0 {
-					return "ok"
-				}
-				return "ok " + strings.Join(rows, ";")
-			})
+					if len(fc.copies) != 1 {
+						return fmt.Sprintf("copies=%d", len(fc.copies))
+					}
+					var rows []string
+					for _, row := range fc.copies[0].Rows {
+						var cs []string
+						for _, c := range row {
+							cs = append(cs, renderVal(c))
+						}
+						rows = append(rows, strings.Join(cs, ","))
+					}
+					if len(rows) == 0 {
+						return "ok"
+					}
+					return "ok " + strings.Join(rows, ";")
+				})
+			}
+			_ = fc
+			impl := runIt()
+			if l.tag == "matching" {
+				prevRerun, prevImpl, prevKey = runIt, impl, ec.desc
+			}
 			var tt []string
 			for _, t := range l.topics {
 				tt = append(tt, core.Hex(t))
@@ -595,6 +650,20 @@ func runRows(e *core.Env, prop string) error {
 					Nontrivial: nActive > 0, Tags: []string{"ptx", "impl:" + strings.SplitN(impl, " ", 2)[0]}, Key: op,
 					Detail: map[string]any{"block": cig.Block, "agg": cig.FilterAGG}})
 				break
+			}
+			if prop == "C12" && len(pushed) > 0 && l.tag == "matching" && strings.HasPrefix(impl, "ok ") {
+				// the declared filters keep this log (a row was emitted); eth_getLogs is restricted to the pushed
+				// addresses and matches them exactly: the log's own address must be among them or it is never fetched
+				in := false
+				for _, a := range pushed {
+					in = in || strings.EqualFold(strings.TrimPrefix(a, "0x"), hex.EncodeToString(laddr))
+				}
+				verdict := "ok"
+				if !in {
+					verdict = fmt.Sprintf("the filters keep a log of address %x but eth_getLogs is restricted to %v", laddr, pushed)
+				}
+				e.Add(core.Case{Impl: verdict, Spec: "ok", Key: "pushdown-o " + op, Nontrivial: true, Tags: []string{"pushdown-oracle"},
+					Detail: map[string]any{"block": cig.Block, "agg": cig.FilterAGG, "log_addr": hex.EncodeToString(laddr), "pushed": pushed}})
 			}
 			c := core.Case{Op: op, Impl: impl, Nontrivial: l.tag != "matching" || strings.HasPrefix(impl, "ok "),
 				Tags:   []string{"plog", "log=" + l.tag, "impl:" + strings.SplitN(impl, " ", 2)[0], fmt.Sprintf("active-filters=%d", min(nActive, 3))},
